@@ -69,7 +69,7 @@ let parse_dump (s : string) : (int, int) tree =
   end
 
 let mutating = function
-  | "I" | "E1" | "EK" | "EI" | "CL" | "AS" | "CC" | "SW" | "B" | "IR" | "CR" -> true
+  | "I" | "E1" | "EK" | "EI" | "CL" | "AS" | "CC" | "SW" | "B" | "IR" | "CR" | "NC" | "SWt" -> true
   | _ -> false
 
 (* overload variants exercised by the harness (const lookups, insert with hint, insert2, operator[],
@@ -84,12 +84,18 @@ let run_case (cfgs : string) (toks : string list) (impl_dumps : string list opti
   let c = parse_cfg cfgs in
   let dup = (c.kind = "mset" || c.kind = "mmap") in
   let ismap = (c.kind = "map" || c.kind = "mmap") in
-  let ltb (a : int) (b : int) = if c.gt then b < a else a < b in
+  (* the comparator is stateful in the harness (run-time direction): every variable carries its own
+     direction, which travels with copy / assignment / swap; each operation is run on the model with the
+     order of the variable it operates on (the Coq theorems are per order; whole-container operations do not
+     use the order) *)
+  let dirs = [| c.gt; c.gt; c.gt |] in
+  let ltb_of (g : bool) (a : int) (b : int) = if g then b < a else a < b in
+  let ltb (a : int) (b : int) = ltb_of c.gt a b in
   let key (v : int * int) = fst v in
   let veqb (a : int * int) (b : int * int) = (a = b) in
   let vltb (a : int * int) (b : int * int) = (compare a b < 0) in
   let lm = nat_of_int c.leaf and im = nat_of_int c.inner in
-  let stepf st o = step ltb key 0 lm im dup c.bin veqb vltb st o in
+  let stepf_g g st o = step (ltb_of g) key 0 lm im dup c.bin veqb vltb st o in
   let equiv a b = not (ltb a b) && not (ltb b a) in
   let n_ i = nat_of_int i in
   let st = ref [None; None; None] in
@@ -114,6 +120,7 @@ let run_case (cfgs : string) (toks : string list) (impl_dumps : string list opti
     let f = Array.of_list (List.map int_of_string (List.tl parts)) in
     let i = f.(0) in
     let cur () = get !st (n_ i) in
+    let stepf st o = stepf_g dirs.(i) st o in
     (* translate to a model operation (None = the harness skips the call as well) *)
     let mop : (int, int * int) op option =
       match name with
@@ -142,16 +149,26 @@ let run_case (cfgs : string) (toks : string list) (impl_dumps : string list opti
       | "B" ->
         let rec pairs k = if k + 1 < Array.length f then (f.(k), if ismap then f.(k + 1) else 0) :: pairs (k + 2) else [] in
         Some (OBulk (n_ i, pairs 2))
-      | "IR" | "CR" -> None
+      | "IR" | "CR" | "NC" | "SWt" -> None
       | _ -> failwith ("bad op " ^ tok) in
     if idx > 0 then Buffer.add_char b ' ';
     let seq_ops : (int, int * int) op list option =
       let rec pairs k = if k + 1 < Array.length f then (f.(k), if ismap then f.(k + 1) else 0) :: pairs (k + 2) else [] in
       match name with
       | "IR" -> Some (List.map (fun v -> OInsert (n_ i, v)) (pairs 2))       (* insert(first, last) *)
-      | "CR" -> Some (OClear (n_ i) :: List.map (fun v -> OInsert (n_ i, v)) (pairs 3))   (* ~X(); X(first, last, ...) *)
+      | "CR" -> dirs.(i) <- c.gt;     (* the range constructors take a default-constructed comparator *)
+                Some (OClear (n_ i) :: List.map (fun v -> OInsert (n_ i, v)) (pairs 3))   (* ~X(); X(first, last, ...) *)
+      | "NC" -> dirs.(i) <- (f.(1) <> 0); Some [OClear (n_ i)]                 (* ~X(); X(comparator state, arena) *)
       | _ -> None in
     let (res, al, fr) =
+      if name = "SWt" then begin
+        (* BTree::swap: the two trees (and their comparators) change places, no node is touched *)
+        let j = f.(1) in
+        let a = get !st (n_ i) and bb = get !st (n_ j) in
+        st := List.mapi (fun k t -> if k = i then bb else if k = j then a else t) !st;
+        let d = dirs.(i) in dirs.(i) <- dirs.(j); dirs.(j) <- d;
+        ("-", 0, 0)
+      end else
       match seq_ops with
       | Some os ->
         List.fold_left (fun (r, a, fr) o ->
@@ -201,10 +218,14 @@ let run_case (cfgs : string) (toks : string list) (impl_dumps : string list opti
           | _, _ -> "?model" in
         ignore before;
         (r, int_of_nat s.s_allocs, int_of_nat s.s_frees) in
+    (match name with
+     | "AS" | "CC" -> if f.(1) <> i then dirs.(i) <- dirs.(f.(1))
+     | "SW" -> let j = f.(1) in let d = dirs.(i) in dirs.(i) <- dirs.(j); dirs.(j) <- d
+     | _ -> ());
     total_alloc := !total_alloc + al; total_free := !total_free + fr;
     let t = cur () in
     Buffer.add_string b (Printf.sprintf "%s/%d.%d.%d.%d.%d" res al fr (int_of_nat (t_leaves t)) (int_of_nat (t_inner t)) (int_of_nat (t_size t)));
-    if mutating name then own_dumps := dump_tree fst t :: !own_dumps
+    if mutating name then own_dumps := (dump_tree fst t, dirs.(i)) :: !own_dumps
   ) toks;
   (* destruction of the three variables frees every remaining node: balance must be exact *)
   let remaining = List.fold_left (fun a t -> a + int_of_nat (t_nodes t)) 0 !st in
@@ -218,8 +239,8 @@ let run_case (cfgs : string) (toks : string list) (impl_dumps : string list opti
      let invfail = ref None and agree = ref 0 and total = ref 0 in
      List.iteri (fun k d ->
        incr total;
-       (match List.nth_opt own k with Some o when o = d -> incr agree | _ -> ());
-       let ok = (try inv_b ltb (fun x -> x) 0 lm im dup (parse_dump d) with Parse_error -> false) in
+       let g = (match List.nth_opt own k with Some (o, g) -> (if o = d then incr agree); g | None -> c.gt) in
+       let ok = (try inv_b (ltb_of g) (fun x -> x) 0 lm im dup (parse_dump d) with Parse_error -> false) in
        if not ok && !invfail = None then invfail := Some k) ds;
      if List.length ds <> List.length own && !invfail = None then invfail := Some (-1);
      Buffer.add_string b (Printf.sprintf " ## inv=%s struct=%d/%d"
